@@ -115,13 +115,6 @@ Proof.
 Qed.
 
 (* ---------- operations that can only add ---------- *)
-Definition safe_op (o : op) : bool :=
-  match o with
-  | OCreate _ _ _ trunc _ => negb trunc
-  | OUnlink _ => false
-  | ORename _ _ => false
-  | _ => true
-  end.
 
 Lemma append_vol_lookup : forall fs k cs k',
   lookup (append_vol fs k cs) k' =
